@@ -590,7 +590,7 @@ def main():
     if harness_ok and have_model:
         shards = getattr(prop, 'SHARDS', NCPU)
         ulimit = 'ulimit -s unlimited 2>/dev/null; exec %s' % model_bin
-        run_to = 600 if tier == 'quick' else 3000      # a hang on either side shows up as output `4`, i.e. a disagreement
+        run_to = 300 if tier == 'quick' else 3000      # a hang on either side shows up as output `4`, i.e. a disagreement
         model_out = run_sharded(['sh', '-c', ulimit], lines, shards, timeout=run_to)
         impl_out = run_sharded(hbin_path, lines, shards, timeout=run_to,
                                env=getattr(prop, 'HARNESS_ENV', None))
